@@ -33,6 +33,12 @@ def gaussHand (x y amp xo yo sx sy theta : α) : α :=
 
 def dmdsHand (x y amp xo yo sx sy theta : α) : α := gaussHand x y amp xo yo sx sy theta / amp
 
+/-- the amplitude derivative at `amp = 0` (where `model/amp` is 0/0): the unit-amplitude Gaussian -/
+def dmds0Hand (x y amp xo yo sx sy theta : α) : α := gaussHand x y (R.ofNat 1) xo yo sx sy theta
+
+/-- fallback of the flag "the source has an `amp == 0` special case": 0 = nothing is claimed -/
+def dmdsZeroHand (x y amp xo yo sx sy theta : α) : α := R.ofNat 0
+
 def dmdxoHand (x y amp xo yo sx sy theta : α) : α :=
   let sint := R.sin (R.radians theta)
   let cost := R.cos (R.radians theta)
